@@ -2,7 +2,7 @@
 import json
 
 import serverlib as sl
-from common import (Rng, assumptions, coq_eval, coq_make, harness_build, hygiene, load_known, log, regen, seed,
+from common import (coqchk, Rng, assumptions, coq_eval, coq_make, harness_build, hygiene, load_known, log, regen, seed,
                     write_evidence, write_replay, TRUSTED_BASE)
 
 PROP = "C20"
@@ -200,6 +200,10 @@ def run(tier, replay=None):
         broken.append("Props/C20.vo does not compile: " + (mk2 or "")[-1500:])
     elif [t for t in THEOREMS if closed.get(t) != "closed"]:
         broken.append("not closed under the global context: %s" % [t for t in THEOREMS if closed.get(t) != "closed"])
+    if thorough and ok_props:
+        okc, summ = coqchk(PROP)
+        if not okc:
+            broken.append("independent checker: " + summ)
     okb, bout = harness_build("debug")
     if not okb:
         rp = write_replay(PROP, "harness_build", {"what": "harness does not build against /repo", "log": bout[-4000:]})
